@@ -117,22 +117,27 @@ func c12Parts(c *vx.Ctx) []c12Part {
 	envs := c12Envs()
 	two, three := []uint32{1, 3}, []uint32{1, 3, 5}
 	open13 := []c12Op{{K: c12Open, S: 1, P: c12Prio{W: 15, U: 3}}, {K: c12Open, S: 3, P: c12Prio{W: 15, U: 3}}}
+	sched7540 := []string{"rfc7540", "rfc7540-retain0", "rfc7540-retain1", "rfc7540-throttle"}
 	return []c12Part{
 		{name: "frames/stream-limited", scheds: c12AllScheds, env: envs["stream-limited"], canOpen: two,
 			seeds: [][]c12Op{nil}, ops: c12FrameOps(envs["stream-limited"], two), depth: vx.Pick(c, 5, 6)},
 		{name: "frames/conn-limited", scheds: c12AllScheds, env: envs["conn-limited"], canOpen: two,
 			seeds: [][]c12Op{nil}, ops: c12FrameOps(envs["conn-limited"], two), depth: vx.Pick(c, 5, 6)},
+		// the same alphabet from "streams 1 and 3 are open": reaches what depth+2 reaches from scratch
 		{name: "frames/two-open", scheds: c12AllScheds, env: envs["stream-limited"], canOpen: two,
-			seeds: [][]c12Op{open13}, ops: c12FrameOps(envs["stream-limited"], two), depth: vx.Pick(c, 4, 6)},
-		{name: "prio", scheds: []string{"rfc7540", "rfc7540-retain0", "rfc7540-retain1", "rfc9218", "roundrobin", "random"}, env: envs["open"], canOpen: three,
-			seeds: [][]c12Op{nil}, ops: c12PrioOps(three, 10), depth: vx.Pick(c, 4, 5)},
-		{name: "prio/throttle", scheds: []string{"rfc7540-throttle", "rfc7540"}, env: envs["open-bigframes"], canOpen: two,
-			seeds: [][]c12Op{nil}, ops: c12PrioOps(two, 2500), depth: vx.Pick(c, 5, 6)},
+			seeds: [][]c12Op{open13}, ops: c12FrameOps(envs["stream-limited"], two), depth: vx.Pick(c, 4, 5)},
+		// priorities and structure: two streams + the never-opened id 7, DATA larger than the throttle limit
+		{name: "prio/two-streams", scheds: append(append([]string(nil), sched7540...), "rfc9218"), env: envs["open-bigframes"], canOpen: two,
+			seeds: [][]c12Op{nil}, ops: c12PrioOps(two, 2500), depth: vx.Pick(c, 4, 5)},
+		// three streams + id 7
+		{name: "prio/three-streams", scheds: []string{"rfc7540", "rfc7540-retain0", "rfc7540-retain1", "rfc9218", "roundrobin", "random"}, env: envs["open"], canOpen: three,
+			seeds: [][]c12Op{nil}, ops: c12PrioOps(three, 10), depth: vx.Pick(c, 3, 4)},
 	}
 }
 
 func c12RunCase(w *vx.W, envs map[string]c12Env, x c12Case) {
 	world := c12NewWorld("C12", x.Sched, envs[x.Env])
+	defer world.release()
 	for _, op := range x.Ops {
 		if _, cont := world.apply(w, op); !cont {
 			return
@@ -153,6 +158,7 @@ func TestVerif_C12(t *testing.T) {
 		c.Assume("histories outside the WriteScheduler contract are not generated: re-opening an id, CloseStream/HEADERS/DATA on a non-open id, opening ids out of ascending order, AdjustStream with StreamDep == StreamID (filtered by the server), pushed streams (PusherID)")
 		c.Assume("RST_STREAM frames are exempt from ordering (WriteScheduler.Pop doc); connection control frames must keep push order among themselves")
 		envs := c12Envs()
+		defer c12Ballast()()
 		for _, p := range c12Parts(c) {
 			p := p
 			c.Note(p.name+".depth", p.depth)
